@@ -327,27 +327,35 @@ fn launch_rdp_thread<S: 'static + Read + Write + Send>(
     bitmap_channel: Sender<BitmapEvent>) -> RdpResult<JoinHandle<()>> {
     // Create the rdp thread
     Ok(thread::spawn(move || {
-        while wait_for_fd(handle as usize) && sync.load(Ordering::Relaxed) {
+        'session: while wait_for_fd(handle as usize) && sync.load(Ordering::Relaxed) {
             let mut guard = rdp_client.lock().unwrap();
-            if let Err(error) = guard.read(|event| {
-                match event {
-                    RdpEvent::Bitmap(bitmap) => {
-                        bitmap_channel.send(bitmap).unwrap();
-                    },
-                    _ => println!("{}: ignore event", APPLICATION_NAME)
-                }
-            }) {
-                match error {
-                    Error::RdpError(e) => match e.kind() {
-                        RdpErrorKind::Disconnect => {
-                            println!("{}: Server ask for disconnect", APPLICATION_NAME);
+            // A TLS record can hold more than one PDU and select does not
+            // see what is already decrypted : read until nothing is buffered
+            loop {
+                if let Err(error) = guard.read(|event| {
+                    match event {
+                        RdpEvent::Bitmap(bitmap) => {
+                            bitmap_channel.send(bitmap).unwrap();
                         },
-                        _ => println!("{}: {:?}", APPLICATION_NAME, e)
-                    },
-                    // any other error (closed socket, TLS failure) also ends the session
-                    e => println!("{}: {:?}", APPLICATION_NAME, e)
+                        _ => println!("{}: ignore event", APPLICATION_NAME)
+                    }
+                }) {
+                    match error {
+                        Error::RdpError(e) => match e.kind() {
+                            RdpErrorKind::Disconnect => {
+                                println!("{}: Server ask for disconnect", APPLICATION_NAME);
+                            },
+                            _ => println!("{}: {:?}", APPLICATION_NAME, e)
+                        },
+                        // any other error (closed socket, TLS failure) also ends the session
+                        e => println!("{}: {:?}", APPLICATION_NAME, e)
+                    }
+                    break 'session;
                 }
-                break;
+                match guard.buffered_read_size() {
+                    Ok(0) | Err(_) => break,
+                    Ok(_) => ()
+                }
             }
         }
     }))
